@@ -205,6 +205,26 @@ def _case(args):
                 tmp_dir=os.path.join(d, 'scratch'), n_processors=ds['P'])
             stats_b, _ = _read_stats(out_b, [(f'k{k}', k) for k in range(1, ds['NCl'] + 1)], genes)
             stats = stats + stats_b
+            # several files, one of them listing the same genes in another order (columns moved with the names): the
+            # statistics are those per gene NAME - or the input is refused
+            if len(paths) >= 2 and ds['NG'] >= 2:
+                import anndata
+                a_ = anndata.read_h5ad(paths[-1])
+                order_ = list(range(a_.n_vars))
+                order_ = order_[1:] + order_[:1]
+                a_ = a_[:, order_].copy()
+                a_.write_h5ad(paths[-1])
+                out_c = os.path.join(d, 'stats_c.h5')
+                try:
+                    precompute_summary_stats_from_h5ad_list_and_tree(
+                        data_path_list=paths, taxonomy_tree=TaxonomyTree(data=tree), output_path=out_c,
+                        rows_at_a_time=ds['R'], normalization='raw' if ds['raw'] else 'log2CPM',
+                        tmp_dir=os.path.join(d, 'scratch'), n_processors=ds['P'])
+                    stats_c, _ = _read_stats(out_c, [(f'k{k}', k) for k in range(1, ds['NCl'] + 1)], genes)
+                    stats = stats + stats_c
+                except RuntimeError:
+                    pass
+                _write_files(ds, d, reverse=True)
             cnames = [(_K(K), K) for K in sorted(set(ds['par']))]
             three = bool(ds.get('par2'))
             keep = ['sup', 'class'] if three else ['class']
@@ -305,6 +325,72 @@ def _case(args):
     return rec, issues
 
 
+def _wide_merge_case(args):
+    """two per-dataset files of 37 clusters x 3001 genes (more than 100 000 numbers per array, stored in the chunks the
+    statistics stage uses) merged: every cluster keeps the complete row of the dataset with the most cells"""
+    seed, wd = args
+    import h5py
+    from cell_type_mapper.diff_exp.precompute import _create_empty_stats_file
+    from cell_type_mapper.diff_exp.precompute_utils import merge_precompute_files
+    rng = random.Random(seed)
+    d = tempfile.mkdtemp(dir=wd)
+    issues, merged = [], []
+    try:
+        K, G = rng.randint(33, 41), rng.randint(2900, 3100)
+        names = [f'cl{k:02d}' for k in range(K)]
+        order = list(range(K))
+        rng.shuffle(order)
+        c2r = {names[k]: order[k] for k in range(K)}
+        tree = {'hierarchy': ['cluster'], 'cluster': {n_: [] for n_ in names}}
+        genes = [f'g{j}' for j in range(G)]
+        files, data = [], []
+        for f_ in range(2):
+            pth = os.path.join(d, f'dataset_{f_}.h5')
+            _create_empty_stats_file(pth, c2r, K, G, col_names=genes)
+            n = np.array([rng.randint(0, 9) for _ in range(K)])
+            arrs = {}
+            with h5py.File(pth, 'a') as h:
+                h.create_dataset('taxonomy_tree', data=json.dumps(tree).encode())
+                h.create_dataset('metadata', data=json.dumps({'dataset': f_}).encode())
+                h['n_cells'][:] = n
+                for key in ('sum', 'sumsq', 'gt0', 'gt1', 'ge1'):
+                    a = (1 + (np.arange(K)[:, None] * 7 + np.arange(G)[None, :] * 3 + 11 * f_) % 97 + 1000 * f_)
+                    a = a.astype(h[key].dtype)
+                    h[key][:, :] = a
+                    arrs[key] = a
+            files.append(pth)
+            data.append((n, arrs))
+        mo = os.path.join(d, 'merged.h5')
+        merge_precompute_files(list(files), mo)
+        with h5py.File(mo, 'r') as h:
+            mn = h['n_cells'][()]
+            marr = {key: h[key][()] for key in ('sum', 'sumsq', 'gt0', 'gt1', 'ge1')}
+            mc2r = json.loads(h['cluster_to_row'][()].decode())
+        if mc2r != c2r:
+            issues.append((906, 'row table of the merged file differs from the datasets\' table'))
+        for k in range(K):
+            r = c2r[names[k]]
+            for g in (0, 1, G // 2, G - 1):
+                merged.append({'k': k + 1, 'g': g + 1, 'n': int(mn[r]), 'sum': int(marr['sum'][r, g]),
+                               'n1': int(data[0][0][r]), 'sum1': int(data[0][1]['sum'][r, g]),
+                               'n2': int(data[1][0][r]), 'sum2': int(data[1][1]['sum'][r, g])})
+            # the whole row, every array: equal to the row of a dataset with the maximal number of cells
+            cands = [f_ for f_ in range(2) if data[f_][0][r] == max(data[0][0][r], data[1][0][r])]
+            if not any(all(np.array_equal(marr[key][r], data[f_][1][key][r]) for key in marr) for f_ in cands):
+                bad = [key for key in marr if not any(np.array_equal(marr[key][r], data[f_][1][key][r]) for f_ in cands)]
+                issues.append((906, f'{K} clusters x {G} genes: the merged row of cluster {names[k]} (row {r}) is not the complete '
+                                    f'row of the dataset with the most cells in {bad}'))
+                break
+    except Exception as e:
+        import traceback
+        issues.append((912, f'{type(e).__name__}: {e} | {traceback.format_exc()[-400:]}'))
+    finally:
+        shutil.rmtree(d, ignore_errors=True)
+    rec = {'NF': 1, 'R': 1, 'P': 1, 'NCl': 0, 'NG': 1, 'cells': [], 'split': [], 'stats': [], 'coarse': [], 'par': [],
+           'merged': merged, 'coarse2': [], 'par2': [1, 1]}
+    return rec, issues
+
+
 def run(ctx):
     quick = ctx.tier == 'quick'
     rng = random.Random(ctx.seed + 9)
@@ -328,6 +414,17 @@ def run(ctx):
         with cf.ProcessPoolExecutor(max_workers=10) as ex:
             outs = list(ex.map(_case, [(ds, wd) for ds in dss], chunksize=2))
         recs, owners = [], []
+        # merges of arrays of more than 100 000 numbers (the copy of the base file then runs in several blocks)
+        wjobs = [(ctx.seed * 100 + i, wd) for i in range(1 if quick else 6)]
+        with cf.ProcessPoolExecutor(max_workers=3) as ex:
+            wouts = list(ex.map(_wide_merge_case, wjobs))
+        for job, (rec, issues) in zip(wjobs, wouts):
+            ctx.count({'wide_merge': job[0]}, nontrivial=True)
+            for code, msg in issues[:2]:
+                ctx.report(f'clause:{code}', f'{CL.get(code, code)}: {msg}', {'wide_merge': job[0]})
+            rec['events'] = [0]
+            recs.append(rec)
+            owners.append({'wide_merge': job[0]})
         for ds, (rec, issues) in zip(dss, outs):
             ctx.count({'ds': ds}, nontrivial=ds['NCl'] > 1 or ds['NF'] > 1)
             for code, msg in issues[:2]:
@@ -341,15 +438,15 @@ def run(ctx):
         for ds, v in zip(owners, vs):
             if not v['accepted']:
                 rej += 1
-                ctx.report(f'clause:{v["inv"]}', f'{CL.get(v["inv"], v["inv"])}', {'dataset': ds})
+                ctx.report(f'clause:{v["inv"]}', f'{CL.get(v["inv"], v["inv"])}', ds if 'wide_merge' in ds else {'dataset': ds})
         ctx.sample({'dataset': dss[0], 'observed': {k: recs[0][k] for k in ('split', 'stats')} if recs else None})
         ctx.part('c2s', datasets=len(dss), validated=len(recs), rejected=rej,
                  raw=sum(1 for d in dss if d['raw']), merges=sum(1 for r in recs if r['merged']))
         # binding self-test
         import copy
         st = []
-        for r in recs[:20]:
-            if r['stats']:
+        for r in recs[:40]:
+            if r['stats'] and len(st) < 20:
                 r2 = copy.deepcopy(r)
                 r2['stats'][0]['ge1'] += 1
                 st.append(r2)
@@ -364,7 +461,10 @@ def run(ctx):
 def replay(ctx, path):
     case = json.load(open(pathlib.Path(path) / 'replay.json'))['case']
     wd = str(ctx.tmpdir('c09_'))
-    rec, issues = _case((case['dataset'], wd))
+    if 'wide_merge' in case:
+        rec, issues = _wide_merge_case((case['wide_merge'], wd))
+    else:
+        rec, issues = _case((case['dataset'], wd))
     for code, msg in issues:
         ctx.report(f'clause:{code}', msg, case)
     if rec:
